@@ -13,8 +13,8 @@ from .. import lib_fm as F
 from .. import lib_fm_signature as S
 
 # family -> (features, quick, thorough)
-PLAN = [('seq', (), 12, 260), ('dup', (), 10, 220), ('shape', (), 10, 220), ('shape', ('clash',), 2, 40),
-        ('dtype', (), 10, 220), ('tbp', (), 8, 160)]
+PLAN = [('seq', (), 12, 130), ('dup', (), 10, 110), ('shape', (), 10, 110), ('shape', ('clash',), 2, 20),
+        ('dtype', (), 10, 110), ('tbp', (), 8, 80)]
 BASE = ('select', 'exitcycle', 'section')
 
 
